@@ -25,7 +25,6 @@ Section NF.
 Variable sigma : oracle.
 Variable i : inst.
 Hypothesis Hnn : inst_nonneg_b i = true.
-Hypothesis Hflex : flex_post_b i = true.
 Hypothesis Hpre : flex_pre_b i = true.
 
 (* the phase pairs a valid machine transition other than IDLE -> SETUP can have *)
@@ -111,7 +110,7 @@ Lemma inside_fact_step x tr0 R x' tr1 :
   WFS i x -> Q (tr0 :: R) x -> apply_transition sigma i x tr0 = Ok x' -> tr_comp tr0 <> tr_comp tr1 ->
   inside_fact x tr1 -> inside_fact x' tr1.
 Proof.
-  intros W [_ HP] H Hne Hf m Hc1 Hk. destruct (Hf m Hc1 Hk) as [j [Hj Hloc]]. exists j. split; auto.
+  intros W [_ [HP _]] H Hne Hf m Hc1 Hk. destruct (Hf m Hc1 Hk) as [j [Hj Hloc]]. exists j. split; auto.
   destruct (apply_loc_eff sigma i _ _ _ H j) as [Same|[A [B0 [a [Ha [Hina [HB Hkind]]]]]]]; [rewrite Same; exact Hloc|].
   exfalso. pose proof (stored_loc i _ _ _ _ W Ha Hina) as HA. rewrite Hloc in HA. inversion HA; subst A.
   destruct Hkind as [[m0 [Hc0 [[E _]|[E _]]]]|[[t1 [Hc0 [Hn1 [Hj1 [_ [_ Hna]]]]]]|[t1 [_ [_ E]]]]]; try discriminate.
@@ -121,9 +120,9 @@ Proof.
 Qed.
 
 Lemma Q7_step x tr0 R x' :
-  WFS i x -> WFS i x' -> Q7 (tr0 :: R) x -> apply_transition sigma i x tr0 = Ok x' -> Q7 R x'.
+  WFS i x -> DEPI i x -> WFS i x' -> Q7 (tr0 :: R) x -> apply_transition sigma i x tr0 = Ok x' -> Q7 R x'.
 Proof.
-  intros W W' [HQ [ND [HV HT]]] H. split; [exact (Q_step sigma i x tr0 R x' W HQ H)|]. simpl in ND. inversion ND as [|? ? Hnin ND']; subst.
+  intros W Dp W' [HQ [ND [HV HT]]] H. split; [exact (Q_step sigma i x tr0 R x' W Dp HQ H)|]. simpl in ND. inversion ND as [|? ? Hnin ND']; subst.
   split; [exact ND'|]. split.
   - intros tr Hin. destruct (HV tr (or_intror Hin)) as [V [If Mk]]. destruct (HV tr0 (or_introl eq_refl)) as [_ [If0 _]].
     assert (Hne : tr_comp tr0 <> tr_comp tr) by (intros E; apply Hnin; rewrite E; apply in_map; exact Hin).
@@ -169,10 +168,20 @@ Proof.
 Qed.
 
 Lemma valid_timed_transport x t ts tr :
-  nth_error (s_trans x) t = Some ts -> no_dep (t_occ ts) -> timed_transport i x t ts = Ok [tr] ->
+  DEPI i x -> nth_error (s_trans x) t = Some ts -> timed_transport i x t ts = Ok [tr] ->
   vfacts x tr /\ tr_new tr <> NM MSetup /\ tr_comp tr = CT t /\ t_st ts <> TIdle.
 Proof.
-  intros Hts D H. unfold timed_transport in H. destruct (t_occ ts) as [|z|b k d] eqn:Eo; [discriminate| |destruct D].
+  intros Dp Hts H. unfold timed_transport in H. destruct (t_occ ts) as [|z|b k d] eqn:Eo; [discriminate| |].
+  2:{ (* a re-issued dependency: the AGV's own -> WAITING / -> TRANSIT transition, the AGV waits at the pickup point *)
+    match type of H with bind ?e _ = _ => destruct e as [r0|] eqn:Er; simpl in H; [|discriminate] end.
+    destruct r0; inversion H; subst tr; clear H.
+    pose proof (tc_of _ _ _ Hts) as Htc. rewrite Eo in Htc.
+    destruct (Dp _ _ _ _ _ _ Htc) as [Est [j [m [ms [mc [_ [_ [_ [_ [Hcd [_ [Hk _]]]]]]]]]]]].
+    split; [|split; [destruct Hk as [-> | ->]; discriminate|split; [exact Hcd|rewrite Est; discriminate]]].
+    split; [|split].
+    - unfold is_transition_valid. rewrite Hcd, Hts, Est. destruct Hk as [-> | ->]; reflexivity.
+    - intros m0 Hc0. rewrite Hcd in Hc0. discriminate.
+    - intros m0 Hc0. rewrite Hcd in Hc0. discriminate. }
   destruct (z <=? s_now x)%Z; [|discriminate].
   match type of H with bind ?e _ = _ => destruct e as [o|] eqn:Ec; simpl in H; [|discriminate] end.
   destruct o as [tr0|]; [|discriminate]. inversion H; subst tr0; clear H.
@@ -214,25 +223,25 @@ Definition tele_facts (x : state) (tr : transition) : Prop :=
   vfacts x tr /\ tr_new tr <> NM MSetup /\ exists t ts, tr_comp tr = CT t /\ nth_error (s_trans x) t = Some ts /\ t_st ts = TIdle.
 
 Theorem Q7_created_gen x timed tele :
-  J i x -> create_timed_transitions i x = Ok timed -> Forall (fun tr => is_tworking tr = true) tele ->
+  J i x -> BI x -> create_timed_transitions i x = Ok timed -> Forall (fun tr => is_tworking tr = true) tele ->
   NoDup (comps tele) -> (forall tr, In tr tele -> tele_facts x tr) -> Q7 (timed ++ tele) x.
 Proof.
-  intros Hj Ht Tw NDt FT. pose proof Hj as [W [[F _] Dn]].
+  intros Hj Hb Ht Tw NDt FT. pose proof Hj as [W [[F _] Dn]].
   split; [eapply (Q_created i); eauto|].
   unfold create_timed_transitions in Ht.
   destruct (create_timed_machine_transitions i x) as [a|] eqn:Ea; simpl in Ht; [|discriminate].
   destruct (create_timed_transport_transitions i x) as [b|] eqn:Eb; simpl in Ht; [|discriminate].
   inversion Ht; subst; clear Ht.
   destruct (timed_machines_comps i _ _ _ _ Ea) as [A1 A2].
-  destruct (timed_transports_comps i x _ _ _ (fun ts Hi => NODEP_in _ _ Dn Hi) Eb) as [B1 B2].
+  pose proof (timed_transport_nodup i x _ Hj Eb) as B2.
   assert (FA : forall tr, In tr a -> vfacts x tr /\ tr_new tr <> NM MSetup /\ exists m, tr_comp tr = CM m).
   { intros tr Hin. destruct (timed_machines_in i _ _ _ _ _ Ea Hin) as [k [ms [Hms Htm]]]. simpl in Htm.
     assert (Hlt : k < length (i_machs i)) by (rewrite <- (ws_lm _ _ W); eapply nth_error_lt; eauto).
     destruct (nth_error (i_machs i) k) as [mc|] eqn:Emc; [|apply nth_error_None in Emc; lia].
     destruct (valid_timed_machine x k ms tr mc W F Hms Emc Htm) as [V [Hn Hc]]. eauto. }
   assert (FB : forall tr, In tr b -> vfacts x tr /\ tr_new tr <> NM MSetup /\ exists t ts, tr_comp tr = CT t /\ nth_error (s_trans x) t = Some ts /\ t_st ts <> TIdle).
-  { intros tr Hin. destruct (B1 _ Hin) as [k [ts [lk0 [z [Hts [Htt [-> [Hc Ho]]]]]]]]. simpl in Htt, Hc.
-    destruct (valid_timed_transport x k ts tr Hts ltac:(rewrite Ho; exact I) Htt) as [V [Hn [Hc' Hni]]]. eauto 8. }
+  { intros tr Hin. destruct (timed_transport_slot i x _ _ Hj Eb Hin) as [k [ts [Hts [Htt [Hc _]]]]].
+    destruct (valid_timed_transport x k ts tr Dn Hts Htt) as [V [Hn [Hc' Hni]]]. eauto 8. }
   split; [|split].
   - unfold comps. rewrite map_app. apply NoDup_app.
     + rewrite map_app. apply NoDup_app; auto. intros c Hc1 Hc2. apply in_map_iff in Hc1, Hc2.
@@ -252,10 +261,10 @@ Proof.
 Qed.
 
 Theorem Q7_created x timed poss tele :
-  J i x -> create_timed_transitions i x = Ok timed -> get_possible_transitions i x = Ok poss ->
+  J i x -> BI x -> create_timed_transitions i x = Ok timed -> get_possible_transitions i x = Ok poss ->
   filter_teleport i x poss = Ok tele -> Q7 (timed ++ tele) x.
 Proof.
-  intros Hj Ht Hp Hf. pose proof Hj as [W [[F _] Dn]].
+  intros Hj Hb Ht Hp Hf. pose proof Hj as [W [[F _] Dn]].
   pose proof (tele_tworking i _ _ _ Hp Hf) as Tw. pose proof (tele_sub i _ _ _ Hf) as Hsub.
   apply Q7_created_gen; auto.
   - unfold filter_teleport in Hf.
@@ -273,15 +282,16 @@ Proof.
     + destruct (transport_offers_spec i _ _ _ E2 Hi) as [t [ts [j [jb [-> [Hts [Hst _]]]]]]]. simpl. eauto.
 Qed.
 
-Theorem Q7_created0 x timed : J i x -> create_timed_transitions i x = Ok timed -> Q7 timed x.
+Theorem Q7_created0 x timed : J i x -> BI x -> create_timed_transitions i x = Ok timed -> Q7 timed x.
 Proof.
-  intros Hj Ht. rewrite <- (app_nil_r timed). apply Q7_created_gen; auto; [constructor|intros tr []].
+  intros Hj Hb Ht. rewrite <- (app_nil_r timed). apply Q7_created_gen; auto; [constructor|intros tr []].
 Qed.
 
-Lemma Q7_offer x offers o : J i x -> get_possible_transitions i x = Ok offers -> In o offers -> Q7 [o] x.
+Lemma Q7_offer x offers o : J i x -> BI x -> create_timed_transitions i x = Ok [] ->
+  get_possible_transitions i x = Ok offers -> In o offers -> Q7 [o] x.
 Proof.
-  intros Hj H Hin. pose proof Hj as [W [[F _] Dn]].
-  split; [apply (Q_offer i); auto; pose proof (offers_not_transit i _ _ H) as Hn; rewrite Forall_forall in Hn; auto|].
+  intros Hj Hb Hct H Hin. pose proof Hj as [W [[F _] Dn]].
+  split; [apply (Q_offer i); auto; pose proof (offers_shape' i _ _ H) as Hn; rewrite Forall_forall in Hn; auto|].
   split; [simpl; constructor; [intros []|constructor]|]. split.
   - intros tr [<-|[]]. eapply offer_vfacts; eauto.
   - intros tr [].
@@ -289,16 +299,16 @@ Qed.
 
 (* ---------- nothing is ever skipped ---------- *)
 Lemma process_ns : forall trs x n lg x' n' lg',
-  NO x -> J i x -> Q7 trs x -> process_transitions sigma i trs x n lg = Ok (x', n', lg') -> n' = n /\ NO x' /\ J i x'.
+  NO x -> J i x -> Q7 trs x -> process_transitions sigma i trs x n lg = Ok (x', n', lg') -> n' = n /\ NO x' /\ J i x' /\ BI x'.
 Proof.
   induction trs as [|tr r IH]; intros x n lg x' n' lg' N Hj HQ H; simpl in H.
-  - inversion H; subst; auto.
+  - inversion H; subst. split; auto. split; auto. split; auto. destruct HQ as [HQ0 _]. eapply BI_end; eauto.
   - destruct HQ as [HQ0 [ND [HV HT]]]. destruct (HV tr (or_introl eq_refl)) as [V _]. rewrite V in H. simpl in H.
     destruct (apply_transition sigma i x tr) as [x1|e] eqn:Ea; simpl in H; [|discriminate].
-    destruct (J_apply sigma i Hnn Hflex _ _ _ _ N Hj HQ0 V Ea) as [Hj1 _].
+    destruct (J_apply sigma i Hnn _ _ _ _ N Hj HQ0 V Ea) as [Hj1 _].
     pose proof (apply_preserves_NO sigma i Hnn _ _ _ N Ea) as N1.
-    destruct Hj as [W _]. pose proof Hj1 as [W1 _].
-    apply (IH x1 n (lg ++ [(tr, x1)]) x' n' lg' N1 Hj1); [|exact H]. apply (Q7_step x tr r x1 W W1); [|exact Ea].
+    destruct Hj as [W [_ Dp]]. pose proof Hj1 as [W1 _].
+    apply (IH x1 n (lg ++ [(tr, x1)]) x' n' lg' N1 Hj1); [|exact H]. apply (Q7_step x tr r x1 W Dp W1); [|exact Ea].
     split; [exact HQ0|]. split; [exact ND|]. split; [exact HV|exact HT].
 Qed.
 
@@ -311,38 +321,39 @@ Proof.
   - destruct timed as [|t ts].
     + destruct (all_in_output i x); [destruct (max_done_end x) as [[z|]|]|destruct (get_possible_transitions i x)]; discriminate.
     + destruct (process_transitions sigma i (t :: ts) x 0 lg) as [[[x1 nerr] lg1]|e] eqn:Ep; [|discriminate].
-      destruct (process_ns _ _ _ _ _ _ _ N Hj HQ Ep) as [En [N1 Hj1]]. subst nerr. simpl in H.
+      destruct (process_ns _ _ _ _ _ _ _ N Hj HQ Ep) as [En [N1 [Hj1 Hb1]]]. subst nerr. simpl in H.
       destruct (jump_to_event i x1) as [tt|e] eqn:Ej; [|discriminate].
       destruct (create_timed_transitions i (set_now x1 tt)) as [timed'|e] eqn:Ec; [|discriminate].
       destruct (jump_to_event_ok i _ _ N1 Ej) as [Hle N2].
       assert (Hj2 : J i (set_now x1 tt)) by (apply (J_now i); auto).
-      eapply IH; [exact N2|exact Hj2| |exact H]. apply Q7_created0; auto.
+      eapply IH; [exact N2|exact Hj2| |exact H]. apply Q7_created0; auto; apply BI_now; auto.
 Qed.
 
 Theorem step_never_fails fuel x0 trs tm xf lgf :
-  tm <> TMJumpByOne -> NO x0 -> J i x0 -> (trs <> [] -> Q7 (sorted_by_transport trs) x0) ->
+  tm <> TMJumpByOne -> NO x0 -> J i x0 -> BI x0 -> (trs <> [] -> Q7 (sorted_by_transport trs) x0) ->
   step sigma i fuel x0 trs tm = SFail xf lgf -> False.
 Proof.
-  intros Htm N Hj HQ H. unfold step in H.
+  intros Htm N Hj Hb0 HQ H. unfold step in H.
   destruct (match trs with [] => Ok (x0, 0, []) | _ :: _ => process_transitions sigma i (sorted_by_transport trs) x0 0 [] end)
     as [[[x1 nerr] lg1]|e] eqn:Ep; [|discriminate].
-  assert (H1 : nerr = 0 /\ NO x1 /\ J i x1).
+  assert (H1 : nerr = 0 /\ NO x1 /\ J i x1 /\ BI x1).
   { destruct trs as [|o os]; [inversion Ep; subst; auto|]. eapply process_ns; eauto. apply HQ. discriminate. }
-  destruct H1 as [En [N1 Hj1]]. subst nerr. simpl in H.
+  destruct H1 as [En [N1 [Hj1 Hb1]]]. subst nerr. simpl in H.
   destruct (run_time_machine i tm x1) as [t|e] eqn:Et; [|discriminate].
   destruct (create_timed_transitions i (set_now x1 t)) as [timed|e] eqn:Ec; [|discriminate].
   destruct (get_possible_transitions i (set_now x1 t)) as [poss|e] eqn:Eg; [|discriminate].
   destruct (filter_teleport i (set_now x1 t) poss) as [tele|e] eqn:Ef; [|discriminate].
   destruct (run_tm_ok i tm _ _ Htm N1 Et) as [Hle N2].
   assert (Hj2 : J i (set_now x1 t)) by (apply (J_now i); auto).
-  eapply loop_ns; [exact N2|exact Hj2| |exact H]. eapply Q7_created; eauto.
+  eapply loop_ns; [exact N2|exact Hj2| |exact H]. eapply Q7_created; eauto; apply BI_now; auto.
 Qed.
 
 (* the middleware never receives an unsuccessful result *)
 Theorem mw_step_never_fails fuel r m a sto m' :
-  NO (r_x r) -> J i (r_x r) -> Forall (OKV i (r_x r)) (r_offers r) -> mw_step sigma i fuel r m a = MFail sto m' -> False.
+  NO (r_x r) -> J i (r_x r) -> BI (r_x r) -> create_timed_transitions i (r_x r) = Ok [] ->
+  Forall (OKV i (r_x r)) (r_offers r) -> mw_step sigma i fuel r m a = MFail sto m' -> False.
 Proof.
-  intros N Hj HO H. unfold mw_step in H.
+  intros N Hj Hb Hct HO H. unfold mw_step in H.
   destruct (r_offers r) as [|o1 rest] eqn:Eo; [discriminate|].
   destruct (negb ((a =? 0)%Z || (a =? 1)%Z)); [discriminate|].
   destruct (a =? 0)%Z.
@@ -354,14 +365,14 @@ Proof.
     intros _. rewrite sorted_single. inversion HO as [|? ? [_ [full [Hfull Hin]]] _]; subst. eapply Q7_offer; eauto.
 Qed.
 
-Theorem flex_never_fails fuel x0 joker0 ta r m a sto m' :
+Theorem run_never_fails fuel x0 joker0 ta r m a sto m' :
   clock_b x0 = true -> wfs_b i x0 = true -> fresh2_b i x0 = true -> nodep_b x0 = true ->
   reach sigma i fuel x0 joker0 ta r m -> mw_step sigma i fuel r m a = MFail sto m' -> False.
 Proof.
   intros C W Fr Dn H Hm. apply NO_iff_clock_b in C.
-  destruct (reach_reachG sigma i Hnn (J i) Q side2 (OKV i) (J_apply sigma i Hnn Hflex) (J_now i) (Q_timed i) (Q_timed0 i)
-              (QV_offer i) (offers_okv i) _ _ _ _ _ _ C (J_init i _ W Fr Dn) H) as [_ [HO [xq [Nq [Jq [E|[E _]]]]]]].
-  - subst xq. exact (mw_step_never_fails fuel r m a sto m' Nq Jq HO Hm).
+  destruct (reach_reachG_E sigma i Hnn (J i) Q side2 (OKV i) BI (J_apply sigma i Hnn) (J_now i) (BI_end i) BI_now (Q_timed i) (Q_timed0 i)
+              (QV_offer i) (offers_okv i) _ _ _ _ _ _ C (J_init i _ W Fr Dn) (BI_init _ Dn) H) as [_ [HO [xq [Nq [Jq [Bq [Hct [E|[E _]]]]]]]]].
+  - subst xq. exact (mw_step_never_fails fuel r m a sto m' Nq Jq Bq Hct HO Hm).
   - unfold mw_step in Hm. rewrite E in Hm. discriminate.
 Qed.
 
